@@ -5,21 +5,7 @@
 
 global size_of usize == 8;
 
-pub enum IggyError { InvalidNumberEncoding, InvalidUtf8, InvalidCommand, Other }
-
-// anything with a wire layout; `enc_seq` is the framing of a list: the entries back to back, no count, no separator
-pub trait Wire: Sized {
-    spec fn enc(self) -> Seq<u8>;
-}
-pub open spec fn enc_seq<V: Wire>(s: Seq<V>) -> Seq<u8>
-    decreases s.len(),
-{
-    if s.len() == 0 { Seq::<u8>::empty() } else { enc_seq(s.drop_last()) + s.last().enc() }
-}
-// `e` sits in `buf` at position `pos`
-pub open spec fn at_pos(buf: Seq<u8>, pos: int, e: Seq<u8>) -> bool {
-    0 <= pos && pos + e.len() <= buf.len() && buf.subrange(pos, pos + e.len()) == e
-}
+pub enum IggyError { InvalidNumberEncoding, InvalidUtf8, InvalidCommand, InvalidHeaderKey, InvalidHeaderValue, Other }
 
 // ---- ConsumerOffsetInfo:  partition_id:u32 | current_offset:u64 | stored_offset:u64 ---------------------------------------------
 impl Wire for ConsumerOffsetInfo {
@@ -209,86 +195,6 @@ pub proof fn lemma_user_info_at(buf: Seq<u8>, pos: int, w: UserInfoV)
     assert(e.subrange(14, 14 + w.username.len() as int) =~= w.username);
 }
 
-// ---- list framing: facts about `enc_seq` (specification only) ------------------------------------------------------------------------
-pub proof fn lemma_enc_seq_push<V: Wire>(s: Seq<V>, x: V)
-    ensures enc_seq(s.push(x)) == enc_seq(s) + x.enc(),
-{
-    assert(s.push(x).drop_last() =~= s);
-}
-pub proof fn lemma_enc_seq_empty<V: Wire>()
-    ensures enc_seq(Seq::<V>::empty()) == Seq::<u8>::empty(),
-{}
-// the encoding of the first k entries is a prefix of the encoding of the list, and entry k follows it
-pub proof fn lemma_enc_seq_take<V: Wire>(ws: Seq<V>, k: int)
-    requires 0 <= k <= ws.len(),
-    ensures
-        enc_seq(ws.take(k)).len() <= enc_seq(ws).len(),
-        enc_seq(ws).subrange(0, enc_seq(ws.take(k)).len() as int) == enc_seq(ws.take(k)),
-        k < ws.len() ==> enc_seq(ws.take(k + 1)) == enc_seq(ws.take(k)) + ws[k].enc(),
-    decreases ws.len() - k,
-{
-    if k == ws.len() {
-        assert(ws.take(k) =~= ws);
-        assert(enc_seq(ws).subrange(0, enc_seq(ws).len() as int) =~= enc_seq(ws));
-    } else {
-        lemma_enc_seq_take(ws, k + 1);
-        assert(ws.take(k + 1).drop_last() =~= ws.take(k));
-        assert(ws.take(k + 1).last() == ws[k]);
-        let a = enc_seq(ws.take(k));
-        let b = enc_seq(ws.take(k + 1));
-        assert(b == a + ws[k].enc());
-        assert(enc_seq(ws).subrange(0, a.len() as int) =~= b.subrange(0, a.len() as int));
-        assert(b.subrange(0, a.len() as int) =~= a);
-    }
-}
-// decoding a list front to back: after k entries the cursor stands at the end of the first k encodings and `got` are their views
-pub open spec fn list_progress<V: Wire>(ws: Seq<V>, k: int, pos: int, got: Seq<V>) -> bool {
-    0 <= k <= ws.len() && pos == enc_seq(ws.take(k)).len() && got == ws.take(k)
-}
-pub open spec fn all_nonempty<V: Wire>(ws: Seq<V>) -> bool { forall|i: int| 0 <= i < ws.len() ==> (#[trigger] ws[i]).enc().len() > 0 }
-pub proof fn lemma_list_start<V: Wire>(ws: Seq<V>)
-    ensures list_progress(ws, 0, 0, Seq::<V>::empty()),
-{
-    assert(ws.take(0) =~= Seq::<V>::empty());
-}
-pub proof fn lemma_list_step<V: Wire>(buf: Seq<u8>, ws: Seq<V>, k: int, pos: int, got: Seq<V>)
-    requires buf == enc_seq(ws), list_progress(ws, k, pos, got), pos < buf.len(),
-    ensures
-        k < ws.len(),
-        at_pos(buf, pos, ws[k].enc()),
-        list_progress(ws, k + 1, pos + ws[k].enc().len(), got.push(ws[k])),
-{
-    lemma_enc_seq_take(ws, k);
-    if k == ws.len() { assert(ws.take(k) =~= ws); }
-    lemma_enc_seq_take(ws, k + 1);
-    let a = enc_seq(ws.take(k));
-    let b = enc_seq(ws.take(k + 1));
-    assert(buf.subrange(pos, pos + ws[k].enc().len()) =~= b.subrange(pos, b.len() as int));
-    assert(b.subrange(pos, b.len() as int) =~= ws[k].enc());
-    assert(got.push(ws[k]) =~= ws.take(k + 1));
-}
-pub proof fn lemma_list_done<V: Wire>(buf: Seq<u8>, ws: Seq<V>, k: int, pos: int, got: Seq<V>)
-    requires buf == enc_seq(ws), list_progress(ws, k, pos, got), pos >= buf.len(), all_nonempty(ws),
-    ensures k == ws.len(), got == ws,
-{
-    lemma_enc_seq_take(ws, k);
-    if k < ws.len() {
-        lemma_enc_seq_take(ws, k + 1);
-        assert(ws[k].enc().len() > 0);
-    }
-    assert(ws.take(k) =~= ws);
-}
-pub proof fn lemma_list_empty<V: Wire>(ws: Seq<V>)
-    requires enc_seq(ws).len() == 0, all_nonempty(ws),
-    ensures ws.len() == 0,
-{
-    if ws.len() > 0 {
-        lemma_enc_seq_take(ws, 0);
-        lemma_enc_seq_take(ws, 1);
-        assert(ws.take(0) =~= Seq::<V>::empty());
-        assert(ws[0].enc().len() > 0);
-    }
-}
 pub proof fn lemma_rearranged_refl<T>(a: Seq<T>)
     ensures rearranged(a, a),
 {
@@ -351,38 +257,6 @@ pub proof fn lemma_user_details_layout(w: UserInfoV, pb: Option<Seq<u8>>)
         },
         None => {},
     }
-}
-
-// ---- list framing after a head: the list starts at `base` and runs to the end of the buffer -------------------------------------
-pub proof fn lemma_at_pos_shift(buf: Seq<u8>, base: int, pos: int, e: Seq<u8>)
-    requires 0 <= base <= buf.len(), at_pos(buf.subrange(base, buf.len() as int), pos, e),
-    ensures at_pos(buf, base + pos, e),
-{
-    assert(buf.subrange(base + pos, base + pos + e.len()) =~= buf.subrange(base, buf.len() as int).subrange(pos, pos + e.len()));
-}
-pub proof fn lemma_list_step_at<V: Wire>(buf: Seq<u8>, base: int, ws: Seq<V>, k: int, pos: int, got: Seq<V>)
-    requires 0 <= base <= buf.len(), buf.subrange(base, buf.len() as int) == enc_seq(ws), list_progress(ws, k, pos - base, got), pos < buf.len(),
-    ensures
-        k < ws.len(),
-        at_pos(buf, pos, ws[k].enc()),
-        list_progress(ws, k + 1, pos + ws[k].enc().len() - base, got.push(ws[k])),
-{
-    let tail = buf.subrange(base, buf.len() as int);
-    lemma_list_step(tail, ws, k, pos - base, got);
-    lemma_at_pos_shift(buf, base, pos - base, ws[k].enc());
-}
-pub proof fn lemma_list_done_at<V: Wire>(buf: Seq<u8>, base: int, ws: Seq<V>, k: int, pos: int, got: Seq<V>)
-    requires 0 <= base <= buf.len(), buf.subrange(base, buf.len() as int) == enc_seq(ws), list_progress(ws, k, pos - base, got), pos >= buf.len(), all_nonempty(ws),
-    ensures k == ws.len(), got == ws,
-{
-    lemma_list_done(buf.subrange(base, buf.len() as int), ws, k, pos - base, got);
-}
-// a head followed by a tail
-pub proof fn lemma_head_tail(a: Seq<u8>, b: Seq<u8>)
-    ensures at_pos(a + b, 0, a), (a + b).subrange(a.len() as int, (a + b).len() as int) == b, (a + b).len() == a.len() + b.len(),
-{
-    assert((a + b).subrange(0, a.len() as int) =~= a);
-    assert((a + b).subrange(a.len() as int, (a + b).len() as int) =~= b);
 }
 
 // u32 lists (partition ids of a consumer-group member)
@@ -1039,48 +913,15 @@ pub open spec fn client_details_head(x: ClientInfoDetails) -> ClientV {
     ClientV { client_id: x.client_id, user_id: x.user_id, transport: x.transport@, address: x.address@, consumer_groups_count: x.consumer_groups_count }
 }
 
-// the same step when the index (not the cursor) is known to be inside the list
-pub proof fn lemma_list_entry_at<V: Wire>(buf: Seq<u8>, base: int, ws: Seq<V>, k: int, pos: int, got: Seq<V>)
-    requires 0 <= base <= buf.len(), buf.subrange(base, buf.len() as int) == enc_seq(ws), list_progress(ws, k, pos - base, got), k < ws.len(),
-    ensures
-        at_pos(buf, pos, ws[k].enc()),
-        list_progress(ws, k + 1, pos + ws[k].enc().len() - base, got.push(ws[k])),
-{
-    let tail = buf.subrange(base, buf.len() as int);
-    lemma_enc_seq_take(ws, k);
-    lemma_enc_seq_take(ws, k + 1);
-    let b = enc_seq(ws.take(k + 1));
-    let p = pos - base;
-    assert(tail.subrange(p, p + ws[k].enc().len()) =~= b.subrange(p, b.len() as int));
-    assert(b.subrange(p, b.len() as int) =~= ws[k].enc());
-    assert(got.push(ws[k]) =~= ws.take(k + 1));
-    lemma_at_pos_shift(buf, base, p, ws[k].enc());
-}
-
 // ---- polled messages ----------------------------------------------------------------------------------------------------------------------
-// The user-headers map `HashMap<HeaderKey, HeaderValue>` (sdk/src/models/header.rs) is opaque here. Its codec pair is an ASSUMED contract
-// over two uninterpreted relations: `hdr_enc_ok(h, b)` "b is an encoding of the map h (for some entry order)", `hdr_same(q, h)` "q and h
-// are the same map". `hdr_bytes(h)` is what `to_bytes` returns for this object.
-#[verifier::external_body]
-pub struct Headers { h: u8 }
-pub uninterp spec fn hdr_enc_ok(h: Headers, b: Seq<u8>) -> bool;
-pub uninterp spec fn hdr_same(q: Headers, h: Headers) -> bool;
-pub uninterp spec fn hdr_bytes(h: Headers) -> Seq<u8>;
-pub open spec fn hdr_dec_ok(b: Seq<u8>, q: Headers) -> bool { forall|h: Headers| hdr_enc_ok(h, b) ==> hdr_same(q, h) }
-// A-size: a header block is shorter than 4 GiB (SendMessages validation caps it at 100 KB)
-#[verifier::external_body]
-pub proof fn axiom_hdr_bytes(h: Headers)
-    ensures hdr_enc_ok(h, hdr_bytes(h)), hdr_bytes(h).len() <= u32::MAX,
-{}
-impl Headers {
-    #[verifier::external_body]
-    pub fn to_bytes(&self) -> (r: ByteSeq)
-        ensures r@ == hdr_bytes(*self),
-    { unimplemented!() }
-    #[verifier::external_body]
-    pub fn from_bytes(b: ByteSeq) -> (r: Result<Headers, IggyError>)
-        ensures (exists|h: Headers| hdr_enc_ok(h, b@)) ==> (r matches Ok(q) && hdr_dec_ok(b@, q)),
-    { unimplemented!() }
+// The user-headers map `HashMap<HeaderKey, HeaderValue>`: its codec pair is under contract in unit codec_headers, whose contracts are
+// INCLUDED here (same text, verified again in this file); wire format and abstract content: vx/prelude/wire_headers.rs.
+//   hdr_bytes(h)        what `to_bytes` emits for the map object h: its entries in its iteration order
+//   hdr_block_valid(b)  b is the encoding of SOME valid header map (entries with distinct keys, lengths 1..=255)
+//   hdr_decodes(b, q)   q has the content of every map that b encodes (there is only one: any entry order gives the same map)
+pub open spec fn hdr_block_valid(b: Seq<u8>) -> bool { exists|es: Seq<HdrEntry>| keys_distinct(es) && entries_valid(es) && b == enc_entries(es) }
+pub open spec fn hdr_decodes(b: Seq<u8>, q: HashMap<HeaderKey, HeaderValue>) -> bool {
+    forall|es: Seq<HdrEntry>| keys_distinct(es) && entries_valid(es) && b == #[trigger] enc_entries(es) ==> hmap_view(q@) == map_of(es)
 }
 // `PolledMessage::get_size_bytes` only feeds the capacity hint of the response buffer: an opaque number
 impl PolledMessage {
@@ -1118,7 +959,7 @@ impl Wire for PmW {
 // what the server guarantees about a stored message: the length field is the payload length, the payload is not empty (the
 // server refuses empty payloads on send), a header block - if any - is the encoding of a header map
 pub open spec fn pm_valid(w: PmW) -> bool {
-    w.hbytes.len() <= u32::MAX && (w.hbytes.len() > 0 ==> exists|h: Headers| hdr_enc_ok(h, w.hbytes)) && w.payload.len() == w.length && w.payload.len() >= 1
+    w.hbytes.len() <= u32::MAX && (w.hbytes.len() > 0 ==> hdr_block_valid(w.hbytes)) && w.payload.len() == w.length && w.payload.len() >= 1
 }
 pub open spec fn pms_valid(ws: Seq<PmW>) -> bool { forall|i: int| 0 <= i < ws.len() ==> pm_valid(#[trigger] ws[i]) }
 pub open spec fn pms_sorted(s: Seq<PmW>) -> bool { forall|i: int, j: int| 0 <= i <= j < s.len() ==> (#[trigger] s[i]).offset <= (#[trigger] s[j]).offset }
@@ -1127,7 +968,7 @@ pub open spec fn pm_matches(x: PolledMessage, w: PmW) -> bool {
     &&& x.offset == w.offset && x.state == w.state && x.timestamp == w.timestamp && x.id == w.id && x.checksum == w.checksum
     &&& x.length.0 == w.length && x.payload@ == w.payload
     &&& (w.hbytes.len() == 0 ==> x.headers is None)
-    &&& (w.hbytes.len() > 0 ==> (x.headers matches Some(q) && hdr_dec_ok(w.hbytes, q)))
+    &&& (w.hbytes.len() > 0 ==> (x.headers matches Some(q) && hdr_decodes(w.hbytes, q)))
 }
 pub open spec fn pms_match(xs: Seq<PolledMessage>, ws: Seq<PmW>) -> bool {
     xs.len() == ws.len() && forall|i: int| 0 <= i < xs.len() ==> pm_matches(#[trigger] xs[i], ws[i])
